@@ -178,7 +178,8 @@ PROPS["C04"] = {
     "cone": r"^MISMATCH (json|json-fuel|ndjson|harness|driver)",
     "rule": "reference: each of ~55 (input, limit) pairs detected alone in a fresh child process; then 40 (thorough 1500) single-goroutine histories of 2-30 detections (geojson/har/gltf after aborted deep parses, 9 kB documents, cut documents, CSV of width 7 then 2, ragged and quoted CSV, NDJSON, HTML/XML) with dirty recycled parser states injected through the hook, 8 goroutines detecting concurrently, bytes beyond the limit inverted; every result must equal the reference; the caller's buffer and 32 bytes of spare capacity are hashed before and after; json channel: Parse with all four queries after injecting dirty states vs the pure model",
     "proved": "the model's Detect depends on the header only (same first `limit` bytes => same result; bytes past the limit irrelevant); reset erases every field a scan reads; Parse on any recycled state = Parse on a fresh state of the same cap; history_pure for every op list and pool behaviour under the pool invariant (cap constant)",
-    "not_proved": "immutability of the caller's buffer and the bufio.Reader pool are established on the implementation only",
+    "data_obligations": ["input_writes = [] (harness/inwrites.go: on this run no statement of mimetype.go, mime.go, tree.go, internal/magic, internal/json, internal/charset assigns an element of, copies into, appends to or hands to a buffer-filling call a []byte / readBuf parameter or a local derived from one; conservative syntactic taint analysis)"],
+    "not_proved": "immutability of the caller's buffer is a regenerated syntactic obligation plus hashing on the implementation (not a semantic proof: reflection, unsafe and writes inside the standard library are out of its sight); the bufio.Reader pool is established on the implementation only",
     "assumptions": COMMON_ASSUME + ["sync.Pool.Get returns a previously Put value or New()", "bufio.Reader.Reset discards all state"],
 }
 
